@@ -142,6 +142,18 @@ func c04Case(mn string, mode int, org int64, d int, fill int, labelsAfter bool, 
 			PStmt{K: "data", W: 2, Items: []DItem{{Kind: "label", Label: "after", Text: "after"}}},
 			PStmt{K: "label", Label: "zend"})
 	}
+	if d >= 0 && d < 1000 && !numeric && labelsAfter && (d%7 == 3) {
+		// a second forward reference to the same (still undefined) target right after the first
+		for i := range p.Stmts {
+			if p.Stmts[i].K == "jmp" {
+				second := p.Stmts[i]
+				second.Mn = "JE"
+				rest := append([]PStmt{second}, p.Stmts[i+1:]...)
+				p.Stmts = append(p.Stmts[:i+1:i+1], rest...)
+				break
+			}
+		}
+	}
 	tk := "label"
 	if numeric {
 		tk = "numeric"
